@@ -302,7 +302,19 @@ def _with_pair(I, st, args, out):
     rel_pair(I, st, args[1], args[0].n, out)
 
 
+def _pre_prefilter_ctor(I, st, args, out):
+    rel_packed(I, st, args[0], args[1].n, out)
+
+
+def _pre_prefilter_fallback(I, st, args, out):
+    rel_pair(I, st, args[1], args[2].n, out)
+
+
 PRE_TABLE = [
+    (re.compile(r'^memmem::searcher::Prefilter::(sse2|avx2|neon|simd128)$'), _pre_prefilter_ctor,
+     'Prefilter::<vector>(finder, needle): private; every caller passes the finder it just built from this needle'),
+    (re.compile(r'^memmem::searcher::Prefilter::fallback(::<.*>)?$'), _pre_prefilter_fallback,
+     'Prefilter::fallback(ranker, pair, needle): private; the pair was selected for this needle'),
     (re.compile(r'^arch::all::twoway::Finder::find$'), _tw_fwd,
      'twoway::Finder::find: "The needle given must be the same as the needle provided to Finder::new"'),
     (re.compile(r'^arch::all::twoway::FinderRev::rfind$'), _tw_rev,
@@ -683,9 +695,40 @@ def assume_call_post(I, fr, st, callee, args, ret):
     return outs
 
 
+MEMCHR1 = re.compile(r'^memchr::memchr$|^arch::' + r'(all|x86_64::sse2|x86_64::avx2|aarch64::neon|wasm32::simd128)' + r'::memchr::One::find$')
+
+
+def e3_summary(I, st, callee, args, ret):
+    """scan-coverage summary of a cut single-byte forward search (what C01 proves at its root): None => no
+    byte of the haystack equals the needle; Some(i) => none before i does, and the byte at i does"""
+    if 'search' not in st.ghost or not MEMCHR1.match(callee.path):
+        return
+    from . import e3
+    hs = args[-1]
+    nb = args[0]
+    if callee.path != 'memchr::memchr':
+        v = follow(I, st, nb)
+        bs = []
+        from .specs import collect_u8
+        ty = I.P.types[callee.locals[1]]
+        collect_u8(I, st, v, ty.get('to', callee.locals[1]), bs)
+        nb = IntV(bs[0]) if len(bs) == 1 else None
+    if not (isinstance(hs, SliceV) and isinstance(nb, IntV) and isinstance(ret, AdtV) and ret.variant is not None):
+        return
+    r, a = hs.ptr.r, hs.ptr.off
+    if ret.variant == 0:
+        e3.reject_batch(I, st, [(nb.e, r, a, a + hs.n)])
+    elif isinstance(ret.fields[0], IntV):
+        i = ret.fields[0].e
+        e3.reject_batch(I, st, [(nb.e, r, a, a + i)])
+        b = I.byte_at(st, PtrV(r, a + i))
+        st.store.add_eq(b.e - nb.e)
+
+
 def _assume_post1(I, fr, st, callee, args, ret):
     outs = []
     for s, r in expand(I, st, ret):
+        e3_summary(I, s, callee, args, r)
         facts, errs = [], []
         auto_rel(I, s, r, facts, errs)
         row = lookup(POST_TABLE, callee.path)
@@ -818,9 +861,71 @@ def _spec_min_len(I, st, args, ret):
     return [('min_haystack_len() returns the stored minimum of the first vector finder', ok, '' if ok else f'returned {ret}')]
 
 
+def _byte_is(I, st, x, region, off):
+    """is the abstract byte x the content of (region, off)?"""
+    from . import eqg
+    if isinstance(x, TermV) and isinstance(x.t, tuple) and x.t and x.t[0] == 'splat':
+        e = x.t[1]
+    elif isinstance(x, IntV):
+        e = x.e
+    else:
+        return False
+    e = st.store.nf(e)
+    if e.k != 0 or len(e.t) != 1 or e.t[0][1] != 1:
+        return False
+    o = eqg.byte_origin(st, e.t[0][0])
+    return o is not None and o[0] == region and st.store.entails_eq(o[1] - off)
+
+
+def _spec_content_packed(I, st, args, ret):
+    """packedpair::Finder::with_pair(needle, pair): the stored comparison bytes are needle[index1], needle[index2]"""
+    if not (isinstance(ret, AdtV) and ret.variant is not None and isinstance(args[0], SliceV)):
+        return [('result tracked', False, 'Option variant / needle not tracked')]
+    out = _spec_with_pair(I, st, args, ret)
+    if ret.variant == 0:
+        return out
+    f = ret.fields[0]
+    nd = args[0]
+    gens = []
+    if tpath(I, f) == PP_ALL:
+        gens = [(f.fields[0], f.fields[1], f.fields[2])]
+    else:
+        for x in ([f] if tpath(I, f) == PP_GEN else f.fields):
+            if tpath(I, x) == PP_GEN:
+                gens.append((x.fields[0], x.fields[1], x.fields[2]))
+    ok = bool(gens)
+    for pair, x1, x2 in gens:
+        ok = ok and _byte_is(I, st, x1, nd.ptr.r, nd.ptr.off + pair.fields[0].e) and _byte_is(I, st, x2, nd.ptr.r, nd.ptr.off + pair.fields[1].e)
+    out.append(('Some(finder) => the finder compares against needle[index1] and needle[index2]', ok,
+                '' if ok else f'stored bytes {[(str(a), str(b)) for _, a, b in gens]} are not the needle bytes at the pair offsets'))
+    return out
+
+
+def _spec_prefilter_ctor(needle_idx, finder_idx):
+    def f(I, st, args, ret):
+        pf = ret
+        if isinstance(ret, AdtV) and tpath(I, ret) == 'core::option::Option':
+            if ret.variant == 0:
+                return []
+            pf = ret.fields[0] if ret.variant == 1 else None
+        nd = args[needle_idx]
+        if not (isinstance(pf, AdtV) and tpath(I, pf) == PREFILTER and isinstance(nd, SliceV)):
+            return [('result tracked', False, 'prefilter / needle not tracked')]
+        rb, ro = pf.fields[2], pf.fields[3]
+        ps = []
+        _find_pairs(I, pf.fields[1].val if isinstance(pf.fields[1], UnionV) else None, ps)
+        ok_off = bool(ps) and isinstance(ro, IntV) and all(_ent(st, ('eq', ro.e - p.fields[0].e)) for p in ps)
+        ok_byte = isinstance(ro, IntV) and _byte_is(I, st, rb, nd.ptr.r, nd.ptr.off + ro.e)
+        return [('rarest_offset is index1 of the finder stored in the prefilter', ok_off, '' if ok_off else f'rarest_offset {ro}, pairs {ps}'),
+                ('rarest_byte is needle[rarest_offset]', ok_byte, '' if ok_byte else f'rarest_byte {rb}')]
+    return f
+
+
 SPEC_TABLE = [
+    (re.compile(r'^memmem::searcher::Prefilter::(sse2|avx2|neon|simd128)$'), _spec_prefilter_ctor(1, 0)),
+    (re.compile(r'^memmem::searcher::Prefilter::fallback(::<.*>)?$'), _spec_prefilter_ctor(2, None)),
     (re.compile(r'^arch::all::packedpair::Pair::with_indices$'), _spec_indices),
-    (re.compile(r'^arch::' + _ARCH + r'::packedpair::Finder::with_pair$'), _spec_with_pair),
+    (re.compile(r'^arch::' + _ARCH + r'::packedpair::Finder::with_pair$'), _spec_content_packed),
     (re.compile(r'^arch::' + _ARCH + r'::packedpair::Finder::pair$'), _spec_pair_accessor),
     (re.compile(r'^arch::all::packedpair::Pair::index1$'), _spec_index_accessor(0)),
     (re.compile(r'^arch::all::packedpair::Pair::index2$'), _spec_index_accessor(1)),
